@@ -151,6 +151,9 @@ class Gen:
             e = self.binary_I(r.choice(DIVS), depth)
             if "k" in e["b"] and (r.random() < 0.9 or self.cfg.get("no_const_zero_divisor")):
                 e["b"] = const(self.small_const(nonzero=True))
+            if e["op"] in ("//", "%") and r.random() < 0.15:
+                # the same quotient / remainder through the divmod() builtin (incl. the reflected form)
+                e["via_divmod"] = True
             return e
         if fam == "bits":
             return self.binary_I(r.choice(BITS), depth)
@@ -272,6 +275,9 @@ class Gen:
         else:
             b = const(self.fxp_const(), "F")
         if r.random() < 0.25 and op in ("+", "-", "*"):
+            a, b = b, a
+        elif op in DIVS and "k" in b and r.random() < 0.3:
+            # reflected division: plain constant on the left, fixed-point divisor
             a, b = b, a
         return {"op": op, "a": a, "b": b, "t": "F"}
 
@@ -515,6 +521,8 @@ class CodeGen:
             return repr(e["k"])
         if "op" in e:
             a, b = self.ex(e["a"]), self.ex(e["b"])
+            if e.get("via_divmod"):
+                return "divmod(%s, %s)[%d]" % (a, b, 0 if e["op"] == "//" else 1)
             return "(%s %s %s)" % (a, e["op"], b)
         if "un" in e:
             a = self.ex(e["a"])
@@ -959,11 +967,17 @@ class CodeGen:
             rv = s.get("range_var")
             if native:
                 self.emit("_broke%d = False" % self.rid)
+                nsrc = "range(min(%s, %d))" % (self.bx(s["stop"]), s["max"])
+                if "start" in s:
+                    nsrc = "range(%d, min(%s, %d))" % (s["start"], self.bx(s["stop"]), s["max"])
                 if rv and s.get("range_def"):
-                    self.emit("%s = range(min(%s, %d))" % (rv, self.bx(s["stop"]), s["max"]))
-                self.emit("for %s in %s:" % (s_lv, rv if rv else "range(min(%s, %d))" % (self.bx(s["stop"]), s["max"])))
+                    self.emit("%s = %s" % (rv, nsrc))
+                self.emit("for %s in %s:" % (s_lv, rv if rv else nsrc))
             else:
                 rsrc = "_range(%s, max=%d, checkstopmax=%r)" % (self.bx(s["stop"]), s["max"], bool(s.get("checkstopmax")))
+                if "start" in s:
+                    rsrc = "_range(%d, %s, max=%d, checkstopmax=%r)" % (s["start"], self.bx(s["stop"]), s["max"],
+                                                                        bool(s.get("checkstopmax")))
                 if rv and s.get("range_def"):
                     self.emit("%s = %s" % (rv, rsrc))
                 self.emit("for %s in %s:" % (s_lv, rv if rv else rsrc))
@@ -1143,6 +1157,17 @@ class CodeGen:
             self.emit("__packout__(%d, _po%d)" % (n, n))
         self.wrap_try(s, body)
         self.step({"kind": "pack", "desc": {"op": "pack"}})
+
+    def st_unpack_raw(self, s):
+        # the bits come from outside (plan inputs: raw secret integers holding 0/1), not from pack()
+        self.rid += 1
+        n = self.rid
+        def body():
+            self.emit("_pk%d = %s" % (n, self.schema_src(s["schema"])))
+            self.emit("_po%d = _pk%d.unpack([%s], 0)" % (n, n, ", ".join(self.var("I", j) for j in range(s["nbits"]))))
+            self.emit("__packout__(%d, _po%d)" % (n, n))
+        self.wrap_try(s, body)
+        self.step({"kind": "unpack_raw", "desc": {"op": "unpack_raw"}})
 
     # -- whole plan
     def generate(self):
